@@ -170,7 +170,50 @@ Proof.
   - cbn [cbody length]. pose proof (total_le_text_s sep t rs css F). lia.
   - apply (body_len sep t (d :: ds) rs css F).
 Qed.
+(* the lines of a container after its head line, each preceded by the separator: nothing when it has neither
+   declarations nor records; the declarations and the blank line when it has no records *)
+Definition cblock (ds : list decl) (rs : list prec) : string :=
+  match rs with
+  | [] => match ds with [] => "" | _ => sep ++ decls_text_s sep ds end
+  | _ => sep ++ cbody ds rs
+  end.
+
+Lemma cblock_block : forall t0 ds rs css,
+  Forall decl_good ds -> Forall2 (rec_spec_ok (fold_left decl_apply ds t0)) rs css ->
+  exists k T, forall rest f toks, lex f rest = Some toks -> stops toks -> not_decl toks ->
+    lex (k + f) (cblock ds rs ++ rest) = Some (T ++ toks)%list /\
+    forall fd fe, length ds <= fd -> total rs + 1 < fe ->
+      exists mid, read_decls t0 (T ++ toks) fd = (fold_left decl_apply ds t0, mid) /\
+                  read_exprs fe (fold_left decl_apply ds t0) mid = Some (conts rs css, toks).
+Proof.
+  intros t0 ds rs css DG F. destruct rs as [|r rs].
+  - inversion F; subst css. destruct ds as [|d ds].
+    + exists 0, []. intros rest f toks L ST ND. split; [exact L|].
+      intros fd fe _ LE. exists toks. cbn [app fold_left conts]. split; [apply read_decls_stop; exact ND|].
+      destruct fe as [|fe]; [cbn in LE; lia|]. apply read_exprs_stop. exact ST.
+    + destruct (decls_lex_s sep SEP (d :: ds) DG) as [kd ID].
+      exists (String.length sep + kd), (flat_map decl_toks (d :: ds)). intros rest f toks L ST ND. split.
+      * unfold cblock. rewrite app_assoc_s, <- Nat.add_assoc. apply (SEP _ _ _ Logic.I). apply ID. exact L.
+      * intros fd fe LD LE. exists toks. split; [apply read_decls_decls; [exact LD | exact ND]|].
+        cbn [conts]. destruct fe as [|fe]; [cbn in LE; lia|]. apply read_exprs_stop. exact ST.
+  - destruct (cbody_block t0 ds (r :: rs) css DG F ltac:(discriminate)) as [k [T I]].
+    exists (String.length sep + k), T. intros rest f toks L ST _. destruct (I rest f toks L ST) as [LX RD]. split.
+    + unfold cblock. rewrite app_assoc_s, <- Nat.add_assoc. apply (SEP _ _ _ Logic.I). exact LX.
+    + exact RD.
+Qed.
+
+Lemma cblock_len : forall t ds rs css, Forall2 (rec_spec_ok t) rs css ->
+  length ds + total rs + length rs <= String.length (cblock ds rs).
+Proof.
+  intros t ds rs css F. destruct rs as [|r rs].
+  - inversion F; subst. unfold total. cbn [length map list_sum fold_right cblock]. destruct ds as [|d ds]; [apply le_n|].
+    rewrite len_app. pose proof (decls_len_s sep (d :: ds)). lia.
+  - unfold cblock. rewrite len_app. pose proof (cbody_len t ds (r :: rs) css F). lia.
+Qed.
 End Body.
+
+Lemma cblock_nonword : forall k ds rs j r, nonword_start (cblock (indent k) ds rs ++ indent j ++ r).
+Proof. intros k ds rs j r. unfold cblock. destruct rs; [destruct ds|]; reflexivity. Qed.
 
 (* ---- bundles *)
 Record pbundle : Type := mkPB {
@@ -185,11 +228,11 @@ Definition pb_table (t : ptable) (b : pbundle) : ptable := fold_left decl_apply 
 
 Definition bundle_ok (t : ptable) (b : pbundle) : Prop :=
   word_ok (pb_id b) /\ Forall decl_good (pb_ds b) /\
-  Forall2 (rec_spec_ok (pb_table t b)) (pb_rs b) (pb_css b) /\ pb_rs b <> [] /\
+  Forall2 (rec_spec_ok (pb_table t b)) (pb_rs b) (pb_css b) /\
   nresolve (pb_table t b) (pb_id b) = Some (pb_uri b).
 
 Definition bundle_text (b : pbundle) : string :=
-  "bundle " ++ pb_id b ++ indent 2 ++ cbody (indent 2) (pb_ds b) (pb_rs b) ++ indent 1 ++ "endBundle".
+  "bundle " ++ pb_id b ++ cblock (indent 2) (pb_ds b) (pb_rs b) ++ indent 1 ++ "endBundle".
 
 Definition bundle_cont (b : pbundle) : sexp := L (A "bundle" :: A (pb_uri b) :: conts (pb_rs b) (pb_css b)).
 
@@ -224,13 +267,13 @@ Lemma bundles_block : forall t bs, Forall (bundle_ok t) bs ->
       lex (k + f) (bundles_text bs ++ rest) = Some (T ++ toks)%list /\
       forall fuel, list_sum (map need bs) < fuel -> read_bundles fuel t (T ++ toks) = Some (map bundle_cont bs, toks).
 Proof.
-  intros t bs F. induction F as [|b bs [WI [DG [FR [NE NR]]]] F IH].
+  intros t bs F. induction F as [|b bs [WI [DG [FR NR]]] F IH].
   - exists 0, []. split; [left; reflexivity|]. intros rest f toks _ L NB NL. split; [exact L|].
     intros fuel LE. destruct fuel as [|f0]; [cbn in LE; lia|]. apply read_bundles_stop. exact NB.
   - destruct IH as [k2 [T2 [SH2 I2]]].
-    destruct (cbody_block (indent 2) (lex_indent 2) t (pb_ds b) (pb_rs b) (pb_css b) DG FR NE) as [kb [Tb IB]].
-    set (l1 := String.length (indent 1)). set (l2 := String.length (indent 2)).
-    exists (l1 + (1 + (1 + (1 + (l2 + (kb + (l1 + (1 + k2)))))))),
+    destruct (cblock_block (indent 2) (lex_indent 2) t (pb_ds b) (pb_rs b) (pb_css b) DG FR) as [kb [Tb IB]].
+    set (l1 := String.length (indent 1)).
+    exists (l1 + (1 + (1 + (1 + (kb + (l1 + (1 + k2))))))),
            (TWord "bundle" :: TWord (pb_id b) :: Tb ++ TWord "endBundle" :: T2)%list.
     split; [right; eexists; eexists; reflexivity|]. intros rest f toks NWR L NB NL.
     destruct (I2 rest f toks NWR L NB NL) as [LX2 RB2].
@@ -244,21 +287,20 @@ Proof.
     assert (ST1 : stops toks1).
     { unfold toks1. destruct SH2 as [->|[bid [T' ->]]]; [|exact Logic.I].
       cbn [app]. destruct toks as [|[| | | | | | | | | | | |] r]; try exact Logic.I. destruct NL. }
-    destruct (IB (indent 1 ++ "endBundle" ++ tail2) (l1 + (1 + (k2 + f))) toks1 LE1 ST1) as [LXB RDB].
+    destruct (IB (indent 1 ++ "endBundle" ++ tail2) (l1 + (1 + (k2 + f))) toks1 LE1 ST1 Logic.I) as [LXB RDB].
     assert (TOK : ((TWord "bundle" :: TWord (pb_id b) :: Tb ++ TWord "endBundle" :: T2) ++ toks
                    = TWord "bundle" :: TWord (pb_id b) :: Tb ++ toks1)%list).
     { unfold toks1. cbn [app]. rewrite <- app_assoc. reflexivity. }
     rewrite TOK. split.
     + assert (TXT : bundles_text (b :: bs) ++ rest
-                    = indent 1 ++ "bundle" ++ " " ++ pb_id b ++ indent 2 ++ cbody (indent 2) (pb_ds b) (pb_rs b)
+                    = indent 1 ++ "bundle" ++ " " ++ pb_id b ++ cblock (indent 2) (pb_ds b) (pb_rs b)
                       ++ (indent 1 ++ "endBundle" ++ tail2)).
       { unfold tail2. cbn [bundles_text]. unfold bundle_text. rewrite !app_assoc_s. reflexivity. }
       rewrite TXT. rewrite <- !Nat.add_assoc.
       apply (lex_indent 1 _ _ _ Logic.I).
       apply (lex_a_word "bundle" ltac:(discriminate) eq_refl _ _ _ (nonword_space _)).
       apply (lex_space _ _ _ Logic.I).
-      apply (lex_a_word (pb_id b) (proj1 WI) (proj2 WI) _ _ _ (indent_nonword 2 _)).
-      apply (lex_indent 2 _ _ _ Logic.I).
+      apply (lex_a_word (pb_id b) (proj1 WI) (proj2 WI) _ _ _ (cblock_nonword 2 _ _ 1 _)).
       exact LXB.
     + intros fuel LE. cbn [map list_sum fold_right] in LE. unfold need in LE at 1.
       destruct fuel as [|f0]; [lia|].
@@ -270,9 +312,8 @@ Qed.
 (* ---- lengths *)
 Lemma need_le_text : forall t b, bundle_ok t b -> need b + 2 <= String.length (bundle_text b).
 Proof.
-  intros t b [_ [_ [FR [NE _]]]]. unfold need, bundle_text. rewrite !len_app.
-  pose proof (cbody_len (indent 2) (pb_table t b) (pb_ds b) (pb_rs b) (pb_css b) FR).
-  assert (1 <= length (pb_rs b)) by (destruct (pb_rs b); [contradiction | cbn; lia]).
+  intros t b [_ [_ [FR _]]]. unfold need, bundle_text. rewrite !len_app.
+  pose proof (cblock_len (indent 2) (pb_table t b) (pb_ds b) (pb_rs b) (pb_css b) FR).
   change (String.length "bundle ") with 7. lia.
 Qed.
 
@@ -284,16 +325,16 @@ Qed.
 
 (* ---- the document *)
 Definition doc_text_b (ds : list decl) (rs : list prec) (bs : list pbundle) : string :=
-  "document" ++ indent 1 ++ cbody (indent 1) ds rs ++ bundles_text bs ++ indent 0 ++ "endDocument".
+  "document" ++ cblock (indent 1) ds rs ++ bundles_text bs ++ indent 0 ++ "endDocument".
 
 Theorem provn_document_bundles : forall ds rs css bs,
   let t := fold_left decl_apply ds builtin_ptable in
-  Forall decl_good ds -> Forall2 (rec_spec_ok t) rs css -> rs <> [] -> Forall (bundle_ok t) bs ->
+  Forall decl_good ds -> Forall2 (rec_spec_ok t) rs css -> Forall (bundle_ok t) bs ->
   ProvnSpec.read (doc_text_b ds rs bs)
   = Some (L (A "content" :: L (A "bundle" :: A "" :: conts rs css) :: map bundle_cont bs)).
 Proof.
-  intros ds rs css bs t DG F NE FB.
-  destruct (cbody_block (indent 1) (lex_indent 1) builtin_ptable ds rs css DG F NE) as [kb [Tb IB]].
+  intros ds rs css bs t DG F FB.
+  destruct (cblock_block (indent 1) (lex_indent 1) builtin_ptable ds rs css DG F) as [kb [Tb IB]].
   destruct (bundles_block t bs FB) as [k2 [T2 [SH2 I2]]].
   set (tail := indent 0 ++ "endDocument").
   assert (LT : lex (1 + (1 + 0)) tail = Some [TWord "endDocument"]).
@@ -304,19 +345,21 @@ Proof.
   set (toks1 := (T2 ++ [TWord "endDocument"])%list) in *.
   assert (ST1 : stops toks1).
   { unfold toks1. destruct SH2 as [->|[bid [T' ->]]]; exact Logic.I. }
-  destruct (IB (bundles_text bs ++ tail) (k2 + (1 + (1 + 0))) toks1 LX2 ST1) as [LXB RDB].
-  set (l1 := String.length (indent 1)) in *.
-  assert (LX : lex (1 + (l1 + (kb + (k2 + (1 + (1 + 0)))))) (doc_text_b ds rs bs) = Some (TWord "document" :: Tb ++ toks1)%list).
+  assert (ND1 : not_decl toks1).
+  { unfold toks1. destruct SH2 as [->|[bid [T' ->]]]; exact Logic.I. }
+  destruct (IB (bundles_text bs ++ tail) (k2 + (1 + (1 + 0))) toks1 LX2 ST1 ND1) as [LXB RDB].
+  assert (NWB : nonword_start (cblock (indent 1) ds rs ++ bundles_text bs ++ tail)).
+  { unfold cblock, tail. destruct rs; [destruct ds; [destruct bs|]|]; reflexivity. }
+  assert (LX : lex (1 + (kb + (k2 + (1 + (1 + 0))))) (doc_text_b ds rs bs) = Some (TWord "document" :: Tb ++ toks1)%list).
   { unfold doc_text_b. fold tail.
-    apply (lex_a_word "document" ltac:(discriminate) eq_refl _ _ _ (indent_nonword 1 _)).
-    apply (lex_indent 1 _ _ _ Logic.I). exact LXB. }
+    apply (lex_a_word "document" ltac:(discriminate) eq_refl _ _ _ NWB). exact LXB. }
   set (n := String.length (doc_text_b ds rs bs)).
   assert (LN : lex (S n) (doc_text_b ds rs bs) = Some (TWord "document" :: Tb ++ toks1)%list).
   { apply lex_step. apply (lex_enough _ _ _ LX). }
   assert (BD : length ds <= n /\ total rs + 1 < S n /\ list_sum (map need bs) < S n).
   { unfold n, doc_text_b. rewrite !len_app.
-    pose proof (cbody_len (indent 1) t ds rs css F). pose proof (needs_le_text t bs FB).
-    assert (1 <= length rs) by (destruct rs; [contradiction | cbn; lia]). lia. }
+    pose proof (cblock_len (indent 1) t ds rs css F). pose proof (needs_le_text t bs FB).
+    change (String.length "document") with 8. lia. }
   destruct BD as [BD1 [BD2 BD3]].
   destruct (RDB n (S n) BD1 BD2) as [mid [R1 R2]].
   unfold ProvnSpec.read. fold n. rewrite LN, R1. cbv beta iota zeta. unfold t in *. rewrite R2. rewrite (RB2 (S n) BD3). reflexivity.
@@ -374,6 +417,28 @@ Proof.
     reflexivity.
 Qed.
 
+Lemma concat_decls_blank : forall sep ds, ds <> [] ->
+  concat_str sep (map decl_line ds ++ [""])%list = decls_text_s sep ds.
+Proof.
+  intros sep ds. induction ds as [|d ds IH]; intros NE; [contradiction|].
+  cbn [map app decls_text_s]. rewrite concat_cons by (destruct (map decl_line ds); discriminate).
+  destruct ds as [|d2 ds2]; [reflexivity|]. rewrite (IH ltac:(discriminate)). reflexivity.
+Qed.
+
+(* head line, declarations, blank line if any declaration, record lines — joined: the head followed by cblock *)
+Lemma head_lines : forall sep head ds (recs : list prec),
+  concat_str sep (head :: map decl_line ds ++ (match ds with [] => [] | _ => [""] end) ++ map record_provn recs)%list
+  = head ++ cblock sep ds recs.
+Proof.
+  intros sep head ds recs. destruct recs as [|r recs].
+  - cbn [map]. rewrite app_nil_r. destruct ds as [|d ds].
+    + cbn [map app concat_str cblock]. rewrite app_nil_s. reflexivity.
+    + rewrite concat_cons by (destruct (map decl_line (d :: ds)); discriminate).
+      rewrite (concat_decls_blank sep (d :: ds) ltac:(discriminate)). reflexivity.
+  - rewrite concat_cons by (destruct (map decl_line ds); [destruct ds; discriminate | discriminate]).
+    rewrite (body_lines sep ds (r :: recs) ltac:(discriminate)). reflexivity.
+Qed.
+
 Lemma blank_same : forall m,
   match (match dflt m with Some d0 => [("default <" ++ ns_uri d0 ++ ">")%string] | None => [] end),
         (map (fun kv => ("prefix " ++ ns_prefix (snd kv) ++ " <" ++ ns_uri (snd kv) ++ ">")%string) (regd m)) with
@@ -383,11 +448,11 @@ Proof. intros m. unfold decls_of. destruct (dflt m); [reflexivity|]. destruct (r
 
 Definition pb_matches (b : bundle) (pb : pbundle) : Prop :=
   pb_id pb = match bid b with Some q => qn_str q | None => "None" end /\
-  pb_ds pb = decls_of (bns b) /\ pb_rs pb = brecs b /\ brecs b <> [].
+  pb_ds pb = decls_of (bns b) /\ pb_rs pb = brecs b.
 
 Lemma bundle_provn_text : forall b pb, pb_matches b pb -> container_provn false 1 b [] = bundle_text pb.
 Proof.
-  intros b pb [EI [ED [ER NE]]]. unfold container_provn, bundle_text. rewrite EI, ED, ER. rewrite app_nil_r.
+  intros b pb [EI [ED ER]]. unfold container_provn, bundle_text. rewrite EI, ED, ER. rewrite app_nil_r.
   rewrite blank_same.
   set (head := "bundle " ++ match bid b with Some q => qn_str q | None => "None" end).
   replace (head :: (match dflt (bns b) with Some d0 => [("default <" ++ ns_uri d0 ++ ">")%string] | None => [] end)
@@ -396,8 +461,7 @@ Proof.
     with (head :: (map decl_line (decls_of (bns b)) ++ (match decls_of (bns b) with [] => [] | _ => [""] end) ++ map record_provn (brecs b)))%list
     by (rewrite <- decl_lines_of, <- List.app_assoc; reflexivity).
   change (String nl (spaces 2)) with (indent 2). change (String nl (spaces 1)) with (indent 1).
-  rewrite concat_cons by (destruct (map decl_line (decls_of (bns b))); [destruct (decls_of (bns b)); [destruct (brecs b); [contradiction | discriminate] | discriminate] | discriminate]).
-  rewrite (body_lines (indent 2) (decls_of (bns b)) (brecs b) NE).
+  rewrite (head_lines (indent 2) head (decls_of (bns b)) (brecs b)).
   unfold head. rewrite !app_str_assoc. reflexivity.
 Qed.
 
@@ -409,10 +473,10 @@ Proof.
 Qed.
 
 Theorem doc_provn_text_b : forall d pbs,
-  brecs (dmain d) <> [] -> Forall2 (fun kb pb => pb_matches (snd kb) pb) (dbundles d) pbs ->
+  Forall2 (fun kb pb => pb_matches (snd kb) pb) (dbundles d) pbs ->
   doc_provn d = doc_text_b (decls_of (bns (dmain d))) (brecs (dmain d)) pbs.
 Proof.
-  intros d pbs NE FB. unfold doc_provn.
+  intros d pbs FB. unfold doc_provn.
   set (subs := map (fun kb : string * bundle => container_provn false 1 (snd kb) []) (dbundles d)).
   unfold container_provn. rewrite blank_same. set (m := bns (dmain d)).
   replace ("document" :: (match dflt m with Some d0 => [("default <" ++ ns_uri d0 ++ ">")%string] | None => [] end)
@@ -422,8 +486,7 @@ Proof.
     by (rewrite <- decl_lines_of; cbn [app]; rewrite <- !List.app_assoc; reflexivity).
   change (String nl (spaces 1)) with (indent 1). change (String nl (spaces 0)) with (indent 0).
   rewrite (concat_tail (indent 1)) by discriminate.
-  rewrite concat_cons by (destruct (map decl_line (decls_of m)); [destruct (decls_of m); [destruct (brecs (dmain d)); [contradiction | discriminate] | discriminate] | discriminate]).
-  rewrite (body_lines (indent 1) (decls_of m) (brecs (dmain d)) NE).
+  rewrite (head_lines (indent 1) "document" (decls_of m) (brecs (dmain d))).
   unfold subs. rewrite (bundles_tail_text _ _ FB).
   unfold doc_text_b. rewrite !app_str_assoc. reflexivity.
 Qed.
@@ -432,13 +495,13 @@ Qed.
 Corollary provn_doc_provn_bundles : forall d css pbs,
   let ds := decls_of (bns (dmain d)) in
   let t := fold_left decl_apply ds builtin_ptable in
-  brecs (dmain d) <> [] -> Forall2 (fun kb pb => pb_matches (snd kb) pb) (dbundles d) pbs ->
+  Forall2 (fun kb pb => pb_matches (snd kb) pb) (dbundles d) pbs ->
   Forall decl_good ds -> Forall2 (rec_spec_ok t) (brecs (dmain d)) css -> Forall (bundle_ok t) pbs ->
   ProvnSpec.read (doc_provn d)
   = Some (L (A "content" :: L (A "bundle" :: A "" :: conts (brecs (dmain d)) css) :: map bundle_cont pbs)).
 Proof.
-  intros d css pbs ds t NE FM DG F FB. rewrite (doc_provn_text_b d pbs NE FM).
-  exact (provn_document_bundles ds (brecs (dmain d)) css pbs DG F NE FB).
+  intros d css pbs ds t FM DG F FB. rewrite (doc_provn_text_b d pbs FM).
+  exact (provn_document_bundles ds (brecs (dmain d)) css pbs DG F FB).
 Qed.
 
 (* ---- the premises are satisfiable: the document of ProvnDocProofs followed by a bundle ex:b, which declares ex
@@ -460,9 +523,8 @@ Example provn_document_bundles_applies :
              L [A "bundle"; A "http://e/b"; L [A "rec"; A (spec_prov_uri ++ "Agent"); A "http://e/ag"; L []]]]).
 Proof.
   refine (eq_trans (provn_doc_provn_bundles pdb_doc
-            [ [] ; [[L [A (spec_prov_uri ++ "activity"); L [A "qn"; A (qn_uri (p_q "a"))]]]; []; []] ] [pdb_pb] _ _ _ _ _) _).
-  - vm_compute. discriminate.
-  - constructor; [|constructor]. split; [reflexivity|]. split; [reflexivity|]. split; [reflexivity | vm_compute; discriminate].
+            [ [] ; [[L [A (spec_prov_uri ++ "activity"); L [A "qn"; A (qn_uri (p_q "a"))]]]; []; []] ] [pdb_pb] _ _ _ _) _).
+  - constructor; [|constructor]. split; [reflexivity|]. split; reflexivity.
   - vm_compute. constructor; [|constructor]. split; [discriminate | split; reflexivity].
   - change (brecs (dmain pdb_doc)) with [mkRec "Entity" (Some (p_q "e")) []; p_r]. fold pd_t.
     constructor; [|constructor; [|constructor]].
@@ -486,11 +548,25 @@ Proof.
   - constructor; [|constructor]. unfold bundle_ok.
     split; [split; [discriminate | reflexivity]|].
     split; [vm_compute; constructor; [|constructor]; split; [discriminate | split; reflexivity]|].
-    split; [|split; [discriminate | vm_compute; reflexivity]].
+    split; [|vm_compute; reflexivity].
     change (pb_rs pdb_pb) with [mkRec "Agent" (Some (p_q "ag")) []]. change (pb_css pdb_pb) with [ @nil (list sexp) ].
     constructor; [|constructor].
     split; [split; [discriminate | reflexivity]|]. split; [vm_compute; reflexivity|].
     split; [cbn [rid]; split; [split; [discriminate | reflexivity]|]; split; [vm_compute; reflexivity | discriminate]|].
     split; [left; reflexivity|]. split; [vm_compute; constructor | constructor].
   - vm_compute. reflexivity.
+Qed.
+
+(* a document without records, with a bundle without records: every container may be empty *)
+Example provn_empty_containers :
+  ProvnSpec.read (doc_provn (mkD (mkB None pd_m [] []) [("http://e/b", mkB (Some (p_q "b")) nsm_init [] [])]))
+  = Some (L [A "content"; L [A "bundle"; A ""]; L [A "bundle"; A "http://e/b"]]).
+Proof.
+  refine (eq_trans (provn_doc_provn_bundles _ [] [mkPB "ex:b" "http://e/b" [] [] []] _ _ _ _) _).
+  - constructor; [|constructor]. split; [reflexivity|]. split; reflexivity.
+  - vm_compute. constructor; [|constructor]. split; [discriminate | split; reflexivity].
+  - constructor.
+  - constructor; [|constructor]. unfold bundle_ok. cbn [pb_id pb_ds pb_rs pb_css pb_uri pb_table fold_left].
+    split; [split; [discriminate | reflexivity]|]. split; [constructor|]. split; [constructor | vm_compute; reflexivity].
+  - reflexivity.
 Qed.
